@@ -236,7 +236,7 @@ impl RtpsStatefulWriter {
                             )
                         }
                     }
-                } else {
+                } else if let Some(gap_list_base) = change_seq_num.checked_add(1) {
                     let writer_id = self.guid.entity_id();
                     let info_dst =
                         InfoDestinationSubmessage::new(reader_proxy.remote_reader_guid().prefix());
@@ -244,7 +244,7 @@ impl RtpsStatefulWriter {
                         ENTITYID_UNKNOWN,
                         writer_id,
                         change_seq_num,
-                        SequenceNumberSet::new(change_seq_num + 1, []),
+                        SequenceNumberSet::new(gap_list_base, []),
                     );
 
                     let rtps_message = RtpsMessageWrite::from_submessages(
